@@ -36,6 +36,11 @@ InitC05 == \E sig \in Seqs((KindIdx \cap (1..Len(C05Kinds))) \X BOOLEAN, MaxSig)
           msg == CmdPat \o (IF lst = <<>> THEN <<>> ELSE Lead(w) \o JoinSeq(Sep(w), lst)) \o (IF w = 1 /\ lst # <<>> THEN <<32>> ELSE <<>>) \o LF
       IN sc = Sc(<<<<CmdPat, 1>>>>, <<<<1, 1, 1, ops>>>>, 256, <<msg>>, [hdrs |-> <<CmdPat>>])
 
+(* C05, several units in one message: the accounting of one unit must not depend on errors of earlier units *)
+InitC05m == \E us \in NESeqs(1..Len(C05mUnits), MaxUnits) :
+   /\ us[1] % NParts = Part
+   /\ sc = Sc(C05mTable, C05mScripts, 256, <<JoinWith(59, Pick(C05mUnits, us)) \o LF>>, [hdrs |-> <<>>])
+
 (* C06: messages of scripted units, after nothing / a responding message / a failing message *)
 Prevs == << <<>>, <<81, 49, 63, 10>>, <<67, 69, 10>> >>       \* none, "Q1?\n", "CE\n"
 InitC06 == \E us \in NESeqs(1..Len(C06Hdrs), MaxUnits), pv \in 1..3 :
@@ -65,6 +70,9 @@ InitC17 ==
   \/ \E s \in {1, 2, 4, 8}, fmt \in 0..2, n \in 0..MaxUnits, k \in 1..3 : \E es \in [1..n -> 1..4] :
         /\ k <= Len(ArrKinds[s]) /\ (fmt = 0 => s <= 2) /\ Part = (s + fmt + n) % NParts
         /\ sc = ScArr(<< <<"r", ArrKinds[s][k], fmt, n, [i \in 1..n |-> ArrPat[s][es[i]]]>>, <<"r", "i32", 7>> >>)
+  \/ \E s \in {1, 2, 4, 8}, fmt \in 1..2, n \in {7, 8, 9, 16, 17} :      \* longer arrays (batching, alignment)
+        /\ Part = (s + fmt + n) % NParts
+        /\ sc = ScArr(<< <<"r", ArrKinds[s][1], fmt, n, [i \in 1..n |-> ArrPat[s][1 + (i % 4)]]>>, <<"r", "i32", 7>> >>)
   \/ \E n \in {0, 1, 2, 9, 10, 11, 99, 100, 101, 255} : Part = n % NParts /\ sc = ScArr(<< <<"r", "blk", BlkData(n)>>, <<"r", "i32", 7>> >>)
   \/ \E n \in 1..4 : \E c \in Compositions(n) : Part = n % NParts /\
         sc = ScArr(<<<<"bh", n>>>> \o [i \in 1..Len(c) |-> <<"bd", SubSeq(BlkData(n), PrefSum(c, i - 1) + 1, PrefSum(c, i))>>] \o << <<"r", "i32", 7>> >>)
@@ -86,6 +94,7 @@ SpecC01 == InitC01 /\ [][Next]_sc
 SpecC17 == InitC17 /\ [][Next]_sc
 SpecC02 == InitC02 /\ [][Next]_sc
 SpecC05 == InitC05 /\ [][Next]_sc
+SpecC05m == InitC05m /\ [][Next]_sc
 SpecC06 == InitC06 /\ [][Next]_sc
 SpecC08 == InitC08 /\ [][Next]_sc
 
